@@ -265,6 +265,12 @@ func metaScenario(sc *metaScn, idx int) {
 		sc.after(sc.do(sc.actor("member"), "sub", nil, ""))
 		sc.after(sc.do(own, "setOther", sc.actor("admin"), "JRWPA"))
 		sc.after(sc.do(sc.actor("admin"), "setSelf", nil, "JRWPAS"))
+		if sc.focus == "C06" {
+			// an administrator who is not the owner tries to demote the owner (J kept, O dropped) and to ban him
+			sc.after(sc.do(sc.actor("admin"), "setOther", own, []string{"JRWPASD", "JRWPS", "JR", "J"}[idx%4]))
+			sc.after(sc.do(sc.actor("admin"), "setOther", own, "RWPASDO"))
+			r.Hit("admin_cannot_demote_owner")
+		}
 		if sc.focus == "C07" {
 			// bans and restrictions survive removal + re-subscription
 			mem := sc.actor("member")
